@@ -32,6 +32,14 @@ let line l =
     let p = Stdlib.String.sub rest 0 sp2 in
     let sx = Stdlib.String.sub rest (sp2 + 1) (Stdlib.String.length rest - sp2 - 1) in
     if Justify.vjust_cfg (z_of_hex p) (r_cfg (parse_sexp sx)) then "(justified)" else "(unjustified)"
+  | "ssacheck" ->
+    (* ssacheck (cfg ...) (idom ...) *)
+    let rest = Stdlib.String.sub l (sp1 + 1) (Stdlib.String.length l - sp1 - 1) in
+    (match parse_sexp ("(" ^ rest ^ ")") with
+     | L [c; L (A "idom" :: ds)] ->
+       let idom = Stdlib.List.map (function A "-" -> None | x -> Some (num_n x)) ds in
+       if SsaCheck.ssa_check (r_cfg c) idom then "(valid)" else "(invalid)"
+     | _ -> "(badline)")
   | _ -> "(unknown-command)"
 
 let () = each_line line
